@@ -28,7 +28,7 @@ def budget(tier):
 
 def floor(tier):
     return dict(min_conclusive=40 if tier == "quick" else 800, min_nontrivial=20 if tier == "quick" else 100,
-                classes=["contract", "linear", "theory", "missing-flavour", "q2dep"], probes=["alphas_calls", "pdf_calls", "apply_pdf_probe"], min_compared=300)  # fmt: skip
+                classes=["contract", "linear", "theory", "missing-flavour", "q2dep", "eko-reference", "twin-first"], probes=["alphas_calls", "pdf_calls", "apply_pdf_probe"], min_compared=300)  # fmt: skip
 
 
 def cases(tier, rng):
@@ -53,15 +53,19 @@ def cases(tier, rng):
         pdf1 = (pdfs.SpanPDF.random(rng, g["deg"], g["is_log"], q2slope=float(rng.uniform(-0.2, 0.2)), flavors=flav) if rng.random() < 0.5
                 else pdfs.SmoothPDF.random(rng, q2slope=float(rng.uniform(-0.2, 0.2)), flavors=flav))  # fmt: skip
         pdf2 = pdfs.SmoothPDF.random(rng, q2slope=float(rng.uniform(-0.2, 0.2)))
-        c = dict(id=f"c17-{i}", mode=mode, names=names, points=pts, xi=xi, pdf1=pdf1, pdf2=pdf2, ab=[float(rng.normal()), float(rng.normal())],
+        c = dict(id=f"c17-{i}", twin_first=bool(i % 6 == 0), mode=mode, names=names, points=pts, xi=xi, pdf1=pdf1, pdf2=pdf2, ab=[float(rng.normal()), float(rng.normal())],
                  fake_orders=[[int(rng.integers(0, 4)), int(rng.integers(0, 3)), int(rng.integers(0, 4)), int(rng.integers(0, 4))] for _ in range(3)],
                  fake_seed=int(rng.integers(1 << 30)), as_par=[float(rng.uniform(0.1, 0.4)), float(rng.uniform(0.05, 0.3))], grid=g, **cfg)  # fmt: skip
         if mode == "theory":
             c["theory"].update(alphas=float(rng.uniform(0.10, 0.13)), Qref=float(cards.pick(rng, [91.2, 50.0, 10.0, 3.0])), XIR=cards.logu(rng, 0.5, 2.0), XIF=cards.logu(rng, 0.5, 2.0),
                                alphaqed=float(rng.uniform(0.007, 0.008)), ModEv="EXA")  # fmt: skip
             th = cards.theory(**c["theory"])
-            # nfref consistent with the scheme at Qref
-            c["theory"]["nfref"] = nfref.nf_light(dict(th, FNS="ZM-VFNS"), th["Qref"] ** 2) if th["FNS"] == "ZM-VFNS" else th["NfFF"]
+            # nfref consistent with the scheme at Qref - or, in a third of the cases, the threshold count at Qref whatever the scheme,
+            # so that the coupling has to be carried across matching scales; both heavy-quark mass schemes
+            c["theory"]["nfref"] = nfref.nf_light(dict(th, FNS="ZM-VFNS"), th["Qref"] ** 2) if (th["FNS"] == "ZM-VFNS" or i % 9 < 3) else th["NfFF"]
+            c["theory"]["HQ"] = cards.pick(rng, ["POLE", "POLE", "MSBAR"])
+            if c["theory"]["HQ"] == "MSBAR":
+                c["theory"].update(Qmc=th["mc"], Qmb=th["mb"], Qmt=th["mt"])
         out.append(c)
     return out
 
@@ -139,6 +143,16 @@ def run_case(case):
         return 0.0075 * (1.0 + 0.01 * np.log(mu))
 
     if mode == "contract":
+        if case.get("twin_first"):
+            # the very same PDF object is first applied to the output of the same card on a twin grid (same number of nodes, other
+            # nodes) at the same scales: per-PDF memos of "the PDF on the grid" that forget the nodes would now be stale
+            classes.add("twin-first")
+            ob2 = cards.observables(obsd, xgrid=cards.warp_grid(g["xgrid"]), deg=g["deg"], is_log=g["is_log"], **case["obs"])
+            try:
+                run.run(th, ob2).apply_pdf_alphas_alphaqed_xir_xif(p1, alpha_s, alpha_qed, xiR, xiF)
+            except ValueError:
+                pass
+            del as_calls[:], aq_calls[:]
         p1.calls.clear()
         pred = out.apply_pdf_alphas_alphaqed_xir_xif(p1, alpha_s, alpha_qed, xiR, xiF)
         probes["alphas_calls"] += len(as_calls)
@@ -241,6 +255,25 @@ def run_case(case):
                     viol.append(dict(sig="contraction-theory", what=f"{n}[{i}]: apply_pdf gives {pr['result']:.14g}, independent contraction with the card's scales {exp:.14g}"))
                 else:
                     margin = max(margin, m)
+        # coupling vs eko configured from the card by the harness itself (mass scheme, thresholds, reference point, loop order)
+        try:
+            ref_as = asref.eko_alphas(th)
+        except Exception as e:  # noqa: BLE001
+            ref_as = None
+            probes["eko_reference_failed"] = probes.get("eko_reference_failed", 0) + 1
+        if ref_as is not None:
+            classes.add("eko-reference")
+            for mu in sorted({float(np.sqrt(p_["Q2"]) * th["XIR"]) for p_ in case["points"]} | {1.3, 3.0, 20.0, 300.0}):
+                try:
+                    a_code, a_ref = als(mu), ref_as(mu)
+                except Exception:  # noqa: BLE001
+                    continue
+                mg, d = run.cmp(a_code, a_ref, abs(a_ref), 1e-9)
+                compared += 1
+                if mg > 1:
+                    viol.append(dict(sig=f"alphas-card|{th.get('HQ','POLE')}|{'zm' if th['FNS']=='ZM-VFNS' else 'ffn'}", what=f"alpha_s({mu:.5g}) built by apply_pdf = {a_code:.12g}; eko configured from the same card (HQ={th.get('HQ')}, {th['FNS']}, NfFF={th['NfFF']}, PTO={th['PTO']}, Qref={th['Qref']}, nfref={th['nfref']}, ModEv={th['ModEv']}) gives {a_ref:.12g}"))
+                    break
+                margin = max(margin, mg)
         # coupling: reference value and RGE
         nl = th["PTO"] + 1
         walls = sorted((th["m" + f] * th["k" + f + "Thr"]) ** 2 for f in "cbt")
